@@ -65,6 +65,17 @@ def trace_sets(tier):
     for s in w1:
         for t in second:
             out.append({"wf one": list(s), "wf2": [t]})
+    # many traces per workflow (file numbering and paging beyond one digit)
+    cyc = lambda n, o=0: [names[(i * 3 + o) % len(names)]  # noqa: E731
+                          for i in range(n)]
+    out += [{"wf one": cyc(12), "wf2": second},
+            {"wf one": cyc(10, 1)},
+            {"wf one": cyc(101, 2), "wf2": [second[i % 3] for i in range(11)]}]
+    if tier == "thorough":
+        out += [{"wf one": cyc(n, 1), "wf2": [second[i % 3]
+                                              for i in range(m)]}
+                for n, m in ((9, 10), (11, 1), (20, 21), (100, 9),
+                             (1001, 2))]
     if tier == "thorough":
         big = sorted(all_trees())
         for s in itertools.combinations_with_replacement(big, 3):
